@@ -25,11 +25,15 @@ void *memcpy(void *, const void *, size_t);
 struct v_cfg g_cfg;
 struct v_led g_led;
 struct v_req g_req;
+struct v_hc g_hc;
 size_t g_k;
 size_t g_j;
 void *g_ctx;
 
 #define V_SMALL_MAX 128u
+#if defined(V_TX_STATIC) && defined(V_TXCAP) && !defined(V_REPLAY)
+static uint8_t v_txbuf[V_TXCAP];
+#endif
 
 void v_env_reset(void) {
 #ifdef V_REPLAY
@@ -68,7 +72,15 @@ void *lltd_port_malloc(size_t size) {
 #if defined(V_TXCAP) && !defined(V_REPLAY)
     if (size > V_SMALL_MAX) {
         V_REQUIRE("model.txcap: request not smaller than the modelled capacity", size >= V_TXCAP);
+#ifdef V_TX_STATIC
+        /* a static array (contents nondeterministic, like fresh memory): lets symex keep constant-offset bytes apart,
+         * which the whole-frame Hello decoder needs; released by lltd_port_free without calling free() */
+        V_REQUIRE("model.txstatic: one transmit buffer at a time", g_led.tx_buf == NULL);
+        __CPROVER_havoc_object(v_txbuf);
+        p = v_txbuf;
+#else
         p = malloc(V_TXCAP);
+#endif
         g_led.tx_buf = p;
         g_led.tx_req = size;
     } else {
@@ -97,7 +109,13 @@ void lltd_port_free(void *ptr) {
         g_led.live--;
         if (ptr == g_led.tx_buf) {
             g_led.tx_buf = NULL;
+#if defined(V_TX_STATIC) && !defined(V_REPLAY)
+            return;
+#endif
         }
+#if defined(V_TX_STATIC) && !defined(V_REPLAY)
+        V_REQUIRE("C01.free-inside-static-tx: free of a pointer into the transmit buffer", !__CPROVER_same_object(ptr, v_txbuf));
+#endif
     }
     free(ptr);
 }
